@@ -248,10 +248,38 @@ func TestC01(t *testing.T) {
 		st.Note("%d invalid UTF-8 sequences in each of %d syntactic contexts, through every source kind", len(invalidUTF8), len(utf8Contexts))
 	}
 
+	// (i-c) small alias tables, systematically: a value that begins with another
+	// alias and goes on with a fragment that may open a nested construct
+	{
+		heads := []string{"", "b ", "b;", "b", "a ", "b\n"}
+		frags := []string{"", "x", "$(", "`", "$((", "${", "'", "\"", "((", "(", "{ ", "<<E\n", "$(x)", "`x`", ";", "|", "&&", "$x", "\\", "if", "! x", "$(! x", "#", ")"}
+		bvals := []string{"echo", "echo ", "", "a", "b ", "c;"}
+		srcs := []string{"a", "a x", "a)", "a`", "a;a", "b a", "x; a\n"}
+		k := 0
+		for _, h := range heads {
+			for _, f := range frags {
+				for _, bv := range bvals {
+					for _, src := range srcs {
+						k++
+						if k%nsh != sh {
+							continue
+						}
+						for _, tail := range []string{"", " "} {
+							al := map[string]string{"a": h + f + tail, "b": bv}
+							run(t, wproto.Req{Op: "parse", Src: src, Kind: c01Kinds[k%len(c01Kinds)], Env: "aliases", Aliases: al}, false)
+						}
+						st.ClassN("systematic_alias_tables", 2)
+					}
+				}
+			}
+		}
+		st.Note("systematic alias tables: %d heads x %d fragments x %d values of the second alias x %d sources x {with, without trailing blank}", len(heads), len(frags), len(bvals), len(srcs))
+	}
+
 	// (ii) generated programs truncated at every rune; (iii) mutations; alias tables
-	n := 2500
+	n := 4000
 	if thorough() {
-		n = 60000
+		n = 80000
 	}
 	n /= nsh
 	hostile := []string{"<<\"\"", "<<\"$x\"", "<<\"\\\"\"", "<<E\"\"OF", "<<''", "<<\\", "$((", "`", "\\", "${", "<<E\n", "((", "'", "\"", "$(", "<<-", ";;", "\n", "#", "{", "}", "é", "\x00", "\xff", "))", ")", "&&", "|", "&"}
@@ -268,7 +296,10 @@ func TestC01(t *testing.T) {
 		}
 		src := gen.Render(p.Stream, lay).Src
 		kind := rapid.SampledFrom(c01Kinds).Draw(rt, "kind")
-		mode := rapid.IntRange(0, 3).Draw(rt, "mode")
+		mode := rapid.IntRange(0, 4).Draw(rt, "mode")
+		if mode == 4 {
+			mode = 3
+		}
 		switch mode {
 		case 0: // every truncation
 			rs := []rune(src)
@@ -309,14 +340,30 @@ func TestC01(t *testing.T) {
 		case 3: // alias tables, including recursive ones and values with substitutions
 			names := []string{"a", "b", "c", "cmd", "echo", "ls", "x1", "foo"}
 			al := map[string]string{}
+			var defined []string
 			for i := rapid.IntRange(1, 4).Draw(rt, "naliases"); i > 0; i-- {
 				name := rapid.SampledFrom(names).Draw(rt, "aname")
 				var v strings.Builder
+				if rapid.Bool().Draw(rt, "chain") {
+					// the value begins with (another) alias name: a chain or a cycle
+					v.WriteString(rapid.SampledFrom(names).Draw(rt, "vhead"))
+					v.WriteString(rapid.SampledFrom([]string{" ", " ", "", ";"}).Draw(rt, "vheadsep"))
+				}
 				for j := rapid.IntRange(0, 4).Draw(rt, "nvtok"); j > 0; j-- {
-					v.WriteString(rapid.SampledFrom(vtoks).Draw(rt, "vtok"))
+					if rapid.IntRange(0, 3).Draw(rt, "opener") == 0 {
+						// something that opens a nested construct and is not closed inside the value
+						v.WriteString(rapid.SampledFrom([]string{"$(", "`", "$((", "${", "'", "\"", "((", "<<E\n", "(", "{ "}).Draw(rt, "vopen"))
+					} else {
+						v.WriteString(rapid.SampledFrom(vtoks).Draw(rt, "vtok"))
+					}
 					v.WriteString(rapid.SampledFrom([]string{" ", " ", "", "\n"}).Draw(rt, "vsep"))
 				}
 				al[name] = v.String()
+				defined = append(defined, name)
+			}
+			if rapid.Bool().Draw(rt, "lead") {
+				// make sure an alias is met in command position
+				src = rapid.SampledFrom(defined).Draw(rt, "leadname") + rapid.SampledFrom([]string{" ", "\n", ";", " | "}).Draw(rt, "leadsep") + src
 			}
 			run(rt, wproto.Req{Op: "parse", Src: src, Kind: kind, Env: "aliases", Aliases: al}, true)
 			st.Class("alias_tables")
